@@ -554,6 +554,33 @@ def path_analysis(rep, tier):
     return n, fails
 
 
+def on_path_analysis(tier, prefix='C08', right='int2.tbl2 AS t2', kinds=('JOIN', 'LEFT JOIN'), depth=None, tail=''):
+    """the same truth-table analysis for a comparison on the joined table placed in the ON clause of an inner / left join:
+    restricting the fetch of t2 by it is sound only if ON = true implies it"""
+    depth = depth or (2 if tier == 'quick' else 3)
+    fails = {}
+    n = 0
+    for kind in kinds:
+        for path in path_cases(depth):
+            for key_first in (True, False):
+                cond, sound = path_sql_and_soundness(path, 't2.y = 1')
+                on = f't1.id = t2.id AND ({cond})' if key_first else cond
+                sql = f'SELECT * FROM int1.tbl1 AS t1 {kind} {right} ON {on}{tail}'
+                n += 1
+                try:
+                    p = plan(sql)
+                except Exception:
+                    continue
+                f2 = [f for f in fetches(p) if f.integration == 'int2']
+                w = str(f2[0].query.where) if f2 and f2[0].query.where is not None else ''
+                pushed = 'y = 1' in w.replace('`', '')
+                if pushed and not sound:
+                    ks = sorted({st.rstrip('LR') for st in path if not st.startswith('and')})
+                    fails.setdefault(f'{prefix}.filter.on-path.{kind.replace(" ", "_")}.{"+".join(ks)}',
+                                     (sql, f'fetch from int2 is filtered by `{w}` although ON = true does not imply it (path {"/".join(path)})'))
+    return n, fails
+
+
 # ------------------------------------------------------------------ semi-join restriction by join kind
 def semijoin_obligations(rep):
     fn = f'{PJ}:PlanJoinTablesQuery.get_filters_from_join_conditions'
@@ -686,8 +713,11 @@ def bounded(rep, tier):
     n_paths, path_fails = path_analysis(rep, tier)
     fails.update(path_fails)
     n += n_paths
+    n_paths, path_fails = on_path_analysis(tier)
+    fails.update(path_fails)
+    n += n_paths
     rep.bounded_evals = n
-    rep.bounded_rule = 'every path of connectives (AND/OR left+right, NOT, function, IS NULL) of depth <= 3 (thorough: 4) above a comparison on the second table: it may be pushed into that table\'s fetch only if WHERE = true implies it in three-valued logic (truth table); generated 2- and 3-table joins (5 join kinds x 9 WHERE shapes x 7 tails): LIMIT inside a fetch only for safe shapes; an outer QueryStep exists whenever the query has clauses'
+    rep.bounded_rule = 'every path of connectives (AND/OR left+right, NOT, function, IS NULL) of depth <= 3 (thorough: 4) above a comparison on the second table: it may be pushed into that table\'s fetch only if WHERE = true implies it in three-valued logic (truth table); the same for a comparison in the ON clause of an inner / left join (depth <= 2, thorough 3; with and without a key equality in front); generated 2- and 3-table joins (5 join kinds x 9 WHERE shapes x 7 tails): LIMIT inside a fetch only for safe shapes; an outer QueryStep exists whenever the query has clauses'
     for cid, (inp, obs) in sorted(fails.items()):
         rep.add_bounded(Bounded(cid, False, inp, obs, 'push-down only when safe', bound='scenario family'))
 
@@ -695,6 +725,8 @@ def bounded(rep, tier):
 def check(rep, tier):
     from vlib import statecensus
     statecensus.obligations(rep, 'C08', 'planner')
+    from vlib import walkerdep
+    walkerdep.obligations(rep, tier, 'C08')
     rep.dropped = 'check_use_limit and PlanJoinTablesQuery.plan read with ast.parse and executed symbolically; context/semi-join lemmas run the real planner on every shape of a finite case analysis'
     rep.assume('L1-L4 relational-algebra side conditions (see MANIFEST note)', 'end-to-end equivalence over table contents is NOT decided by this check',
                'the boolean-context case analysis is uniform in depth by the walker contract (C13): a comparison is visited regardless of its context')
